@@ -161,16 +161,16 @@ def run(prop, tier, seed, repo, jobs):
             binpath, _ = build_native(repo)
             for label, prefix in (('len=2^63-1', bytes([1, 0, 0, 0, 0, 0, 0, 0]) + bytes([0xff] * 7 + [0x7f]) + b'abc'),
                                   ('len=2^40', bytes([1, 0, 0, 0, 0, 0, 0, 0]) + bytes([0, 0, 0, 0, 0, 1, 0, 0]) + b'abc'),
-                                  ('truncated', None)):
+                                  ('truncated', None), ('cut=0', 0), ('cut=1', 1), ('cut=3', 3), ('cut=4', 4), ('cut=9', 9)):   # (a death right after the record file was created / during its first bytes)
                 d = tempfile.mkdtemp(prefix='zx-f7-', dir=os.environ.get('VERIF_SCRATCH', '/var/tmp'))
                 try:
                     open(d + '/zinoma.yml', 'w').write('targets:\n  t:\n    input:\n      - paths: [in.txt]\n    build: echo t\n')
                     open(d + '/in.txt', 'w').write('a')
                     r1 = run_native(binpath, d, ['t'], None, timeout=30)
                     sf = d + '/.zinoma/t.checksums'
-                    if prefix is None:
+                    if prefix is None or isinstance(prefix, int):
                         data = open(sf, 'rb').read()
-                        open(sf, 'wb').write(data[:len(data) // 2])
+                        open(sf, 'wb').write(data[:(len(data) // 2 if prefix is None else prefix)])
                     else:
                         open(sf, 'wb').write(prefix)
                     r2 = run_native(binpath, d, ['t'], None, timeout=20)
